@@ -591,7 +591,7 @@ class LinearFactor(ConjugateFactor):
         """
         nu_new = measure.nu + self.nu
         ln_beta_new = measure.ln_beta + self.ln_beta
-        R_new = ln_beta_new.shape[0]
+        R_new = max(measure.R, self.R)
         Lambda_new = jnp.broadcast_to(measure.Lambda, (R_new, self.D, self.D))
         new_density_dict = {"Lambda": Lambda_new, "nu": nu_new, "ln_beta": ln_beta_new}
         if update_full:
@@ -733,7 +733,7 @@ class ConstantFactor(ConjugateFactor):
             Returns the resulting dictionary to create GaussianMeasure.
         """
         ln_beta_new = measure.ln_beta + self.ln_beta
-        R_new = ln_beta_new.shape[0]
+        R_new = max(measure.R, self.R)
         Lambda_new = jnp.broadcast_to(measure.Lambda, (R_new, self.D, self.D))
         nu_new = jnp.broadcast_to(measure.nu, (R_new, self.D))
         new_density_dict = {"Lambda": Lambda_new, "nu": nu_new, "ln_beta": ln_beta_new}
